@@ -11,10 +11,11 @@ Inductive tkind :=
 Inductive read_result := RTok (k : tkind) (before_space : bool) | REos | RError.
 
 Record parser := Ps {
-  lx : lexer; ptoken : Z; pungot : bool; prow : Z; perror_row : Z; preplayed : bool
+  lx : lexer; ptoken : Z; pungot : bool; prow : Z; perror_row : Z; preplayed : bool;
+  pline_head : bool; phas_token : bool
 }.
 
-Definition ps_new (s : list N) : parser := Ps (lx_new s) 0%Z false 1%Z 0%Z false.
+Definition ps_new (s : list N) : parser := Ps (lx_new s) 0%Z false 1%Z 0%Z false false false.
 
 (* UTF-8 facts about a rune string, as Go's string(bytes) indexing sees it *)
 Definition utf8_len (c : N) : N := if c <? 128 then 1 else if c <? 2048 then 2 else if c <? 65536 then 3 else 4.
@@ -64,16 +65,17 @@ Section Parser.
     if pungot p then
       let l := lx p in
       Some (Ps (Lx (tok l) (val l) (is_space_prev l) (is_space_prev l) (rd l) (doc_comment l) (llm_comment l))
-               (ptoken p) false (prow p) (perror_row p) true)
+               (ptoken p) false (prow p) (perror_row p) true (pline_head p) (phas_token p))
     else
+      let lh := (ptoken p =? Z.of_N ch_nl)%Z || negb (phas_token p) in
       match advance is_uspace is_udigit V fuel (lx p) with
       | None => None
       | Some (true, l') =>
           let t := tok l' in
           if (t =? Z.of_N ch_nl)%Z
-          then Some (Ps l' t false (prow p + 1)%Z (perror_row p) false)
-          else Some (Ps l' t false (prow p) (prow p) false)
-      | Some (false, l') => Some (Ps l' T_EOS false (prow p) (perror_row p) false)
+          then Some (Ps l' t false (prow p + 1)%Z (perror_row p) false lh true)
+          else Some (Ps l' t false (prow p) (prow p) false lh true)
+      | Some (false, l') => Some (Ps l' T_EOS false (prow p) (perror_row p) false lh true)
       end.
 
   Definition count_nl (s : list N) : Z := Z.of_nat (List.length (filter (N.eqb ch_nl) s)).
@@ -81,7 +83,7 @@ Section Parser.
   Definition finish (p : parser) : parser :=   (* IsSpacePrev := IsSpace; IsSpace := false *)
     let l := lx p in
     Ps (Lx (tok l) (val l) false (is_space l) (rd l) (doc_comment l) (llm_comment l))
-       (ptoken p) (pungot p) (prow p) (perror_row p) (preplayed p).
+       (ptoken p) (pungot p) (prow p) (perror_row p) (preplayed p) (pline_head p) (phas_token p).
 
   (* Read *)
   Definition parser_read (fuel : nat) (p0 : parser) : option (read_result * parser) :=
@@ -89,7 +91,7 @@ Section Parser.
     | None => None
     | Some p =>
         let t := ptoken p in
-        let sp := is_space (lx p) in
+        let sp := is_space (lx p) || ((t =? Z.of_N ch_lb)%Z && pline_head p) in
         if (t =? T_INT)%Z then
           match val (lx p) with
           | VIntLit z => Some (RTok (KInt z) sp, finish p)
@@ -100,7 +102,7 @@ Section Parser.
           match val (lx p) with
           | VStrLit s =>
               let row' := if preplayed p then prow p else (prow p + count_nl s)%Z in
-              Some (RTok (KString s) sp, finish (Ps (lx p) t (pungot p) row' (perror_row p) (preplayed p)))
+              Some (RTok (KString s) sp, finish (Ps (lx p) t (pungot p) row' (perror_row p) (preplayed p) (pline_head p) (phas_token p)))
           | _ => Some (RError, p)
           end
         else if (t =? T_NIL)%Z then Some (RTok KNil sp, finish p)
@@ -115,7 +117,7 @@ Section Parser.
     end.
 
   Definition unget (p : parser) : parser :=
-    Ps (lx p) (ptoken p) true (prow p) (perror_row p) (preplayed p).
+    Ps (lx p) (ptoken p) true (prow p) (perror_row p) (preplayed p) (pline_head p) (phas_token p).
 
   (* the whole token stream as the evaluation loop sees it: (result, Row, ErrorRow) per Read, up to and
      including the first REos / RError *)
